@@ -3,8 +3,8 @@ CONSTANTS
   N = 6
   W = {1, 2, 3}
   Primes = {2, 3}
+INVARIANT ThCliques
 INVARIANT ThWellFormed
-INVARIANT ThStrict
 INVARIANT ThDelay
 INVARIANT ThNoTorsion
 INVARIANT EmitCase
